@@ -88,6 +88,9 @@ func overlayFor(pkgs map[string]bool, native bool) (map[string][]byte, error) {
 		return nil, err
 	}
 	for p := range pkgs {
+		if p == pkgMain {
+			continue
+		}
 		rel := strings.TrimPrefix(strings.TrimPrefix(p, modPath), "/")
 		hdir := filepath.Join(verifDir, "harness", rel)
 		ents, err := os.ReadDir(hdir)
@@ -380,6 +383,10 @@ func cmdRun(args []string) int {
 	pkgSet := map[string]bool{}
 	hpkgSet := map[string]bool{}
 	for _, sp := range specs {
+		if sp.Structural != "" {
+			pkgSet[pkgMain] = true
+			continue
+		}
 		pkgSet[sp.Pkg] = true
 		hpkgSet[sp.Pkg] = true
 		for _, x := range sp.Extra {
@@ -421,6 +428,24 @@ func cmdRun(args []string) int {
 			defer func() { <-sem }()
 			h := newHarnessRun(sp, *tier)
 			h.params = paramsFor(sp, *tier)
+			if sp.Structural != "" {
+				t0 := time.Now()
+				for _, r := range structuralChecks(ld.prog, sp.Structural) {
+					h.Obligations++
+					h.ObligationIDs[r.ID]++
+					if r.OK {
+						h.Discharged++
+						h.DischargedIDs[r.ID]++
+					} else {
+						h.Cex = append(h.Cex, &Counterexample{Harness: sp.Name, Obligation: r.ID, Kind: "structural", Where: r.Detail, Model: map[string]string{"detail": r.Detail}, Replayed: "no-replay-needed"})
+					}
+					h.Samples = append(h.Samples, map[string]string{"structural": r.ID, "detail": r.Detail})
+				}
+				h.PathsDone, h.States = 1, 1
+				h.Wall = time.Since(t0).Seconds()
+				runs[i] = h
+				return
+			}
 			h.run(ld.prog, ld.pkgs[sp.Pkg], bases[sp.Pkg], *tier, known)
 			runs[i] = h
 			if *verbose {
